@@ -79,6 +79,9 @@ def export_check(program, built, solver, prims, leaves, job):
     try:
         for leaf in leaves:
             sol = analysis.solve_under_pins(solver, prims, leaf)
+            if isinstance(sol, analysis.Raised):
+                out.append(analysis.raised_violation(program, leaf, sol))
+                continue
             if not sol:
                 continue
             key = repr(sorted((n, t.start, t.end, t.scheduled, tuple(t.assigned_resources)) for n, t in sol.tasks.items()))
